@@ -2,12 +2,14 @@
 from ..rules import process as P
 
 EXPLANATION = (
-    "Static analysis. Decides: the depth check runs in the constructor on every path, before any lock/pipe/queue is created, "
-    "and every subclass constructor reaches it; its guard, evaluated as a decision table over (depth 0..5, MAX_DEPTH -2..5), "
-    "equals MAX_DEPTH > 0 and depth >= MAX_DEPTH; the fork guard equals start_method == 'fork' and depth >= 1; both raise "
-    "LokyRecursionError; MAX_DEPTH comes from LOKY_MAX_DEPTH with a positive integer default; the root depth is 0; the value "
-    "shipped to every worker is the creator's depth + 1 from the single spawn site (R-ARGS) and the worker installs it before "
-    "serving tasks; nobody else writes it (R-DEPTH)."
+    'Static analysis. Decides: the depth check runs in the constructor on every path, before any lock/pipe/queue is '
+    'created, and every subclass constructor reaches it; its guard, evaluated as a decision table over (depth 0..5, '
+    "MAX_DEPTH -2..5), equals MAX_DEPTH > 0 and depth >= MAX_DEPTH; the fork guard equals start_method == 'fork' and "
+    'depth >= 1; both raise LokyRecursionError; MAX_DEPTH comes from LOKY_MAX_DEPTH with a positive integer default; '
+    "the root depth is 0; the value shipped to every worker is the creator's depth + 1 from the single spawn site "
+    '(R-ARGS) and the worker installs it before serving tasks; nobody else writes it (R-DEPTH). Also decided: no '
+    'process is spawned while the current one is still being bootstrapped, for every start method (R-DEPTH bootstrap '
+    'guard).'
 )
 
 
